@@ -348,7 +348,7 @@ func runReaders(c *simrun.Ctx) *simrun.Violation {
 	proto0 := corpus[t.Draw("type", len(corpus))]
 	mt := proto0.ProtoReflect().Type()
 	md := mt.Descriptor()
-	cfg := simval.GenCfg{MaxDepth: 1 + t.Draw("maxdepth", 3), MaxFields: 1 + t.Draw("maxfields", 8), MaxMapEntries: 2 + t.Draw("maxentries", 6), MaxListLen: 1 + t.Draw("maxlist", 4), Unknown: t.Chance("unknowns", 1, 4)}
+	cfg := simval.GenCfg{MaxDepth: 1 + t.Draw("maxdepth", 3), MaxFields: 1 + t.Draw("maxfields", 8), MaxMapEntries: 2 + t.Draw("maxentries", 6), MaxListLen: 1 + t.Draw("maxlist", 4), Unknown: t.Chance("unknowns", 1, 4), AnyTargets: anyTargets()}
 	av := simval.Gen(t, md, cfg)
 	canon := simval.Canon(av)
 	useStruct := t.Chance("build-struct", 1, 2)
